@@ -137,9 +137,12 @@ def make_xp(P, form, k, f, vlit):
 
 def classify(c):
     """known-finding class of a case (None = inside the scope where the property must hold)"""
-    recs = X.get_at(c["tree"], c["pos"])
     if c.get("chained"):
-        return "C06-b"
+        # C06-e: a predicate applied to an EMPTY list raises IndexError instead of being a miss; below an outer
+        # selection the exception leaves the fan-out loop and takes the selections of the other parents with it
+        recs = X.get_at(c["tree"], c["pos"])
+        if any(isinstance(r, dict) and r.get("id") == c["v1"] and r.get("items") == [] for r in recs):
+            return "C06-e"
     return None
 
 
@@ -198,7 +201,7 @@ def check_chained(c):
         return None if g[1] == "DFLT" else {"want": "miss", "got": repr(g[1])[:200]}
     got = g[1]
     norm = [list(x) if isinstance(x, list) else x for x in got] if isinstance(got, list) else got
-    if norm != flat_want and norm != [x for s in flat_want for x in s]:
+    if norm != flat_want:
         return {"want": flat_want, "got": repr(got)[:200]}
     return None
 
